@@ -6,6 +6,7 @@ import os
 
 from vt import ir, irref, svsim
 from vt.svparse import Unsupported, SvSyntaxError
+from vt.acc import MachineryError
 
 
 def backend_pass(backend):
@@ -282,6 +283,83 @@ def check_class(name, cls, backend, acc, vectors):
   acc.count("evaluations", nsteps)
   acc.add("nontrivial", name)
   return "ok"
+
+
+def check_class_ref(name, cls, backend, acc, seqs, ref, sig_prefix=None):
+  """Three-way comparison for a hand-written component with a reference function:
+  ref(state, **inputs) -> (state', {output name without 's.': value}); every sequence starts from a fresh design / state None."""
+  from pymtl3 import DefaultPassGroup
+  case = dict(design=name, backend=backend, kind="stmt")
+  sig_prefix = sig_prefix or f"{backend}:stmt"
+  try:
+    text, top = translate(cls, backend)
+  except Exception as ex:
+    acc.count("not_translatable"); acc.add("translate_errors", f"{name}:{type(ex).__name__}")
+    text = None
+  if text is not None:
+    acc.count("programs")
+    try:
+      des = svsim.Design(text)
+      for mn, md in des.mods.items():
+        for mod, iname, conns in md["insts"]:
+          if mod not in des.mods: raise SvSyntaxError(f"{mn} instantiates undefined module {mod}")
+      svsim.Inst(des, top)
+    except SvSyntaxError as ex:
+      acc.violation(f"{sig_prefix}:invalid-text:{name}", case, "syntactically valid text", str(ex)[:200], name)
+      return "violation"
+    for mn in des.mods:
+      multi, drv = svsim.drivers(des, mn)
+      if multi:
+        (var, el, bit), who = multi[0]
+        acc.violation(f"{sig_prefix}:multiple-drivers:{name}", case, "exactly one driver per variable bit", f"{mn}.{var}[{el}] bit {bit}: {who}", name)
+        return "violation"
+  nsteps = 0
+  for si, seq in enumerate(seqs):
+    m = cls()
+    m.elaborate()
+    m.apply(DefaultPassGroup())
+    inst = svsim.Inst(des, top) if text is not None else None
+    ins = sorted(m.get_all_object_filter(lambda x: x.is_signal() and x.is_top_level_signal() and x.get_host_component() is m and x.is_input_value_port() and repr(x) != "s.clk"), key=repr)
+    outs = sorted(m.get_all_object_filter(lambda x: x.is_signal() and x.is_top_level_signal() and x.get_host_component() is m and x.is_output_value_port()), key=repr)
+    try:
+      imap = [(repr(p), p._dsl.Type.nbits, sv_port(inst, p, backend) if inst else None) for p in ins]
+      omap = [(repr(p), p._dsl.Type.nbits, sv_port(inst, p, backend) if inst else None) for p in outs]
+    except KeyError as ex:
+      acc.violation(f"{sig_prefix}:port-missing:{name}", case, "every PyMTL port appears in the emitted module", f"no port {ex}", name)
+      return "violation"
+    setters = {r: eval(f"lambda s, v: s.{r[2:]}.__imatmul__(v)") for r, w, _ in imap}
+    getters = {r: eval(f"lambda s: int(s.{r[2:]})") for r, w, _ in omap}
+    state = None
+    for step, vec in enumerate(seq):
+      for (r, w, loc) in imap:
+        v = vec[r[2:]] & ((1 << w) - 1)
+        setters[r](m, v)
+        if inst: inst.set_port(loc[0], v, loc[1])
+      try:
+        m.sim_tick()
+      except Exception as ex:
+        raise MachineryError(f"{name}: PyMTL simulation raised {ex!r} (family bug)")
+      state, want = ref(state, **vec)
+      if inst:
+        try:
+          inst.tick()
+        except (svsim.SimError, SvSyntaxError) as ex:
+          acc.violation(f"{sig_prefix}:{'invalid-text' if isinstance(ex, SvSyntaxError) else 'text-does-not-simulate'}:{name}", case, "valid text", str(ex)[:200], name)
+          return "violation"
+      nsteps += 1
+      for (r, w, loc) in omap:
+        a = getters[r](m)
+        e = want[r[2:]] & ((1 << w) - 1)
+        if a != e:
+          raise MachineryError(f"{name}: reference function and PyMTL simulation disagree on {r} at step {step} of sequence {si}: ref {e}, sim {a}, inputs {vec} (family bug or a simulation defect: triage by hand)")
+        if inst:
+          b = inst.get_port(loc[0], loc[1])
+          if a != b:
+            acc.violation(f"{sig_prefix}:output-differs:{name}", dict(case, seq=si, step=step), f"{r} = {a}", b, f"{name} sequence {si} step {step} inputs {vec}")
+            return "violation"
+  acc.count("evaluations", nsteps)
+  if text is not None: acc.add("nontrivial", name)
+  return "ok" if text is not None else "skipped"
 
 
 def class_vectors(imap):
